@@ -16,6 +16,8 @@ from math import (
     cos,
     degrees,
     hypot,
+    isinf,
+    isnan,
     log,
     radians,
     sin,
@@ -5459,9 +5461,10 @@ class Arc(Curve):
         self.end = end
         rx = abs(rx)
         ry = abs(ry)
-        if start == end or rx == 0 or ry == 0:
+        if start == end or rx == 0 or ry == 0 or rx * rx == 0 or ry * ry == 0:
             # If start is equal to end, there are infinite number of circles so these void out.
             # We still permit this kind of arc, but SVG parameterization cannot be used to achieve it.
+            # (A radius whose square underflows to zero is a zero radius for the formulas below.)
             self.sweep = 0
             self.prx = Point(start)
             self.pry = Point(start)
@@ -5528,6 +5531,9 @@ class Arc(Curve):
         if not sweep_flag:
             delta -= 360
         # built parameters, delta, theta, center
+        for value in (center.x, center.y, rx, ry, delta):
+            if isinf(value) or isnan(value):
+                raise ValueError("Arc parameters exceed the floating point range.")
 
         rotate_matrix = Matrix()
         rotate_matrix.post_rotate(
